@@ -2,6 +2,8 @@
 """seedprompt.py <ID> — writes /tmp/seed-<ID>/prompt.txt (the brief for an independent seeding agent; contains nothing from /verif but the property text)"""
 import json, sys
 pid = sys.argv[1]
+tag = sys.argv[2] if len(sys.argv) > 2 else pid          # directory tag, e.g. C05b
+avoid = sys.argv[3] if len(sys.argv) > 3 else ""
 props = {}
 for l in open('/verif/properties.jsonl'):
     p = json.loads(l); props[p['id']] = p
@@ -27,7 +29,9 @@ Requirements for the change:
 5. Verify all claims by actually running the commands (original+demo passes; change+demo fails in the demo only; change alone passes all existing tests). Leave the worktree with BOTH diffs applied at the end.
 Report briefly what you did.'''
 p = props[pid]
-txt = tmpl.format(wt=f'/tmp/seed-{pid}/wt', base=f'/tmp/seed-{pid}', pid=pid, title=p['title'], statement=p['statement'],
+txt = tmpl.format(wt=f'/tmp/seed-{tag}/wt', base=f'/tmp/seed-{tag}', pid=pid, title=p['title'], statement=p['statement'],
                   quant=p['quantifier']['text'], anchors=json.dumps(p['anchors']['mechanism']))
-open(f'/tmp/seed-{pid}/prompt.txt', 'w').write(txt)
+if avoid:
+    txt += "\n\nAn earlier change for this property already did the following; choose a DIFFERENT mechanism / code location and a different kind of slip: " + avoid
+open(f'/tmp/seed-{tag}/prompt.txt', 'w').write(txt)
 print("written", len(txt))
